@@ -1,2 +1,920 @@
-def check(repo, col, tier):
+"""C01: assembly, schedule, elimination, ends, scheme, refusal rules (see c01.py)."""
+from __future__ import annotations
+
+import ast
+from fractions import Fraction as Fr
+
+from sa.algebra import (Und, Rat, PW, ObjV, SymArr, NONE, rat_of, as_pw, ONE, ZERO, parse_ref)
+from sa.arrprog import ArrEvaluator, ArrV, IdxV, SelV
+from sa.core import AnalysisError, unparse, walk_no_nested
+from sa.terms import Expander, T
+from . import idx as idxm, kin
+
+SV = "jaxley/solver_voltage.py"
+SU = "jaxley/utils/solver_utils.py"
+
+
+class _Stop(Exception):
     pass
+
+
+def _arr_eval(repo):
+    ev = ArrEvaluator(repo)
+    ev.opaque_calls["exprel"] = kin.exprel_call
+    orig = ev.test
+
+    def test(t, env, ctx):
+        # emptiness guards `if len(x) > 0:` / `if num_branchpoints > 0:` -- the generic (non-empty) case
+        if isinstance(t, ast.Compare) and len(t.ops) == 1 and isinstance(t.ops[0], ast.Gt) and \
+                isinstance(t.comparators[0], ast.Constant) and t.comparators[0].value == 0:
+            txt = unparse(t.left)
+            if txt.startswith("len(") or txt.startswith("num_"):
+                return True
+        return orig(t, env, ctx)
+
+    ev.test = test
+    return ev
+
+
+def _abstract_args(fi, overrides=None):
+    overrides = overrides or {}
+    out = []
+    for p in fi.params:
+        if p in overrides:
+            out.append(overrides[p])
+        elif p in ("sinks", "sources", "internal_node_inds", "par_inds", "child_inds", "data_inds", "indices", "indptr"):
+            out.append(ArrV(p, kind="index"))
+        elif p in ("cil", "pil", "bil"):
+            out.append(IdxV(p))
+        elif p == "idx":
+            out.append(ObjV("JaxleySolveIndexer"))
+        elif p == "delta_t":
+            out.append(PW.of(Rat.atom("dt")))
+        elif p in ("nbranches", "solver", "tridiag_solver", "debug_states", "ncomp_per_branch", "n_nodes"):
+            out.append(PW.of(Rat.atom(p)))
+        else:
+            out.append(ArrV(p))
+    return out
+
+
+def _table(a: ArrV):
+    """Canonical contribution table of an abstract array: (init, scale, [(index, op, form)])."""
+    ups = []
+    for ix, op, val, node in a.updates:
+        ups.append((ix, op, rat_of(val), node))
+    return a.init, a.scale, ups
+
+
+def _fmt_table(a: ArrV):
+    init, scale, ups = _table(a)
+    s = f"init={init}" + (f" * ({scale})" if scale is not None else "")
+    for ix, op, v, _n in ups:
+        s += f"; {op} {v} at {ix}"
+    return s
+
+
+def _cmp_table(ev, col, rule, fi, name, a, want_init, want_scale, want_ups, node=None):
+    """want_ups: list of (index desc, op, reference formula text)."""
+    if not isinstance(a, ArrV):
+        col.unk(rule, fi, f"{name}", "not an abstract array", node=node or fi.node)
+        return
+    init, scale, ups = _table(a)
+    ok = init == want_init
+    sc = scale if scale is not None else ONE
+    ok = ok and sc.eq(parse_ref(ev, want_scale) if want_scale else ONE)
+    got = [(ix, op, v) for ix, op, v, _n in ups]
+    missing, extra = [], list(got)
+    for wix, wop, wtxt in want_ups:
+        wv = parse_ref(ev, wtxt, _ATOMS)
+        hit = None
+        for g in extra:
+            if g[0] == wix and g[1] == wop and g[2].eq(wv):
+                hit = g
+                break
+        if hit is None:
+            missing.append((wix, wop, wtxt))
+        else:
+            extra.remove(hit)
+    ok = ok and not missing and not extra
+    nd = node
+    if (missing or extra) and ups:
+        nd = ups[0][3]
+    col.check(ok, rule, fi, f"{name}: contribution table",
+              f"{_fmt_table(a)}",
+              f"`{name}` is assembled as [{_fmt_table(a)}]; the backward-Euler matrix needs init={want_init}"
+              + (f" * ({want_scale})" if want_scale else "")
+              + "".join(f"; {o} {t} at {i}" for i, o, t in want_ups)
+              + (f" -- missing {missing}" if missing else "") + (f" -- unexpected {[(g[0], g[1], repr(g[2])) for g in extra]}" if extra else ""),
+              node=nd or fi.node)
+
+
+class _AtomEnv(dict):
+    """Reference formulas use identifiers like g_0_1_2 / g_0_gt for axial_conductances{0,1,2}@each."""
+
+    def __missing__(self, k):
+        raise KeyError(k)
+
+
+def _mk_atoms():
+    env = {}
+
+    def g(sel):
+        return PW.of(Rat.atom(f"axial_conductances{sel}@each"))
+
+    env["g012"] = g("{0,1,2}")
+    env["g0gt"] = g("{0;src>snk}")
+    env["g0lt"] = g("{0;src<snk}")
+    for t in (1, 2, 3, 4):
+        env[f"g{t}"] = g("{%d}" % t)
+    env["gall"] = PW.of(Rat.atom("axial_conductances@each"))
+    env["vt"] = PW.of(Rat.atom("voltage_terms@each"))
+    env["ct"] = PW.of(Rat.atom("constant_terms@each"))
+    env["v"] = PW.of(Rat.atom("voltages@each"))
+    env["w34"] = PW.of(Rat.atom("concat(axial_conductances{3},axial_conductances{4})@each"))
+    return env
+
+
+_ATOMS = _mk_atoms()
+
+
+def check(repo, col, tier):
+    col.rule("R-C01-assembly", "contribution tables of the implicit back ends == backward-Euler matrix rows", 12)
+    col.rule("R-C01-elim", "elimination steps are Gaussian row operations", 10)
+    col.rule("R-C01-schedule", "level order and per-level call order", 8)
+    col.rule("R-C01-ends", "parents attach at their last, children at their first compartment", 4)
+    col.rule("R-C01-scheme", "solver formulas and solver_kwargs", 10)
+    col.rule("R-C01-refuse", "unsupported models / unknown solver names are refused", 3)
+    cap = _assembly_jaxley(repo, col)
+    _assembly_sparse(repo, col)
+    _explicit(repo, col)
+    _elim(repo, col)
+    _schedule(repo, col)
+    _ends(repo, col)
+    _scheme(repo, col)
+    _refuse(repo, col)
+
+
+# --------------------------------------------------------------------------------------
+
+
+def _assembly_jaxley(repo, col):
+    R = "R-C01-assembly"
+    fi = repo.func(SV, "step_voltage_implicit_with_jaxley_spsolve")
+    tri = repo.func(SV, "_triang_branched")
+    ev = _arr_eval(repo)
+    cap = {}
+
+    def capture(ev_, args, kw):
+        cap["args"] = args
+        raise _Stop()
+
+    ev.opaque_calls["_triang_branched"] = capture
+    try:
+        ev.call(fi, _abstract_args(fi))
+    except _Stop:
+        pass
+    except Und as e:
+        col.unk(R, fi, "assembly of the tridiagonal + branch-point system", f"outside the analysable fragment: {e}", node=fi.node)
+        return None
+    if "args" not in cap:
+        raise AnalysisError("step_voltage_implicit_with_jaxley_spsolve no longer calls _triang_branched")
+    names = tri.params
+    a = dict(zip(names, cap["args"]))
+    M = "mask(internal_node_inds)"
+    want = {
+        "diags": ("ones", None, [("mask(sinks{0,1,2})", "add", "dt*g012"), (M, "add", "dt*vt")]),
+        "solves": ("zeros", None, [(M, "add", "v + dt*ct")]),
+        "uppers": ("zeros", None, [("mask(sinks{0;src>snk})", "add", "-dt*g0gt")]),
+        "lowers": ("zeros", None, [("mask(sinks{0;src<snk})", "add", "-dt*g0lt")]),
+        "branchpoint_conds_children": ("zeros", None, [("child_inds", "set", "-dt*g2")]),
+        "branchpoint_conds_parents": ("zeros", None, [("par_inds", "set", "-dt*g1")]),
+        "branchpoint_weights_children": ("zeros", None, [("child_inds", "set", "g4")]),
+        "branchpoint_weights_parents": ("zeros", None, [("par_inds", "set", "g3")]),
+        "branchpoint_diags": ("zeros", "-1", [("idx.branchpoint_group_inds", "add", "w34")]),
+        "branchpoint_solves": ("zeros", None, []),
+    }
+    for nm, (wi, ws, wu) in want.items():
+        if nm not in a:
+            raise AnalysisError(f"_triang_branched no longer has a parameter `{nm}`")
+        _cmp_table(ev, col, R, fi, nm, a[nm], wi, ws, wu)
+    # result: solves read back through the mask of the internal nodes
+    ex = idxm.expander(repo, fi)
+    r = ex.returns[-1] if ex.returns else None
+    ok = r is not None and r.op == "sub" and T.find(r.args[1], lambda x: x.op == "mcall" and x.name == "mask") is not None \
+        and T.find(r.args[1], lambda x: x.op == "param" and x.name == "internal_node_inds") is not None \
+        and T.find(r.args[0], lambda x: x.op == "call" and x.name == "_backsub_branched") is not None
+    col.check(ok, R, fi, "solution read back at mask(internal_node_inds)", "solves[idx.mask(internal_node_inds)]",
+              f"returns {r.short() if r else None}", node=fi.node)
+    # the same system goes to triangulation and back-substitution
+    tb = [c for c in ex.calls if isinstance(c.func, ast.Name) and c.func.id in ("_triang_branched", "_backsub_branched")]
+    if len(tb) == 2:
+        for c, callee in zip(tb, ("_triang_branched", "_backsub_branched")):
+            cf = repo.func(SV, callee)
+            argn = [unparse(x) for x in c.args]
+            swapped = [(p, a_) for p, a_ in zip(cf.params, argn) if a_ != p and a_ in cf.params]
+            col.check(not swapped, R, fi, f"{callee}: arguments passed in their roles", "argument names match parameter roles",
+                      f"{callee} receives {swapped} (argument bound to another parameter's role)", node=c)
+    return a
+
+
+def _assembly_sparse(repo, col):
+    R = "R-C01-assembly"
+    fi = repo.func(SV, "step_voltage_implicit_with_jax_spsolve")
+    # rebuild the pieces from the function environment: evaluate again, keeping the env
+    ex = idxm.expander(repo, fi)
+    ev = _arr_eval(repo)
+    env = {}
+    for p, v in zip(fi.params, _abstract_args(fi)):
+        env[p] = v
+    ctx = {"mod": repo.mods[fi.file], "cls": None, "defining_cls": None}
+    seen = {}
+    try:
+        for st in fi.node.body:
+            if isinstance(st, ast.Assign) and any("spsolve" in unparse(x) for x in ast.walk(st.value) if isinstance(x, ast.Call)):
+                break
+            ev.run_body([st], env, ctx)
+    except Und as e:
+        col.unk(R, fi, "assembly of the generic sparse system", f"outside the analysable fragment: {e}", node=fi.node)
+        return
+    diag = env.get("diagonal_values")
+    solves = env.get("solves")
+    if not isinstance(diag, ArrV) or not isinstance(solves, ArrV):
+        raise AnalysisError("step_voltage_implicit_with_jax_spsolve: diagonal_values / solves not found")
+    _cmp_table(ev, col, R, fi, "diagonal_values", diag, "zeros", None,
+               [("sinks", "add", "dt*gall"), ("internal_node_inds", "add", "1 + dt*vt")])
+    _cmp_table(ev, col, R, fi, "solves (jax.sparse)", solves, "zeros", None, [("internal_node_inds", "add", "v + dt*ct")])
+    # all_values = concat([diagonal, -dt*g]) in the order (diagonals, off-diagonals)
+    av = ex.final_env.get("all_values")
+    ok = False
+    if av is not None:
+        lst = T.find(av, lambda x: x.op == "list")
+        if lst is not None and len(lst.args) == 2:
+            second = lst.args[1]
+            ok = second.op == "unary" and second.name == "USub" and \
+                T.find(second, lambda x: x.op == "param" and x.name == "axial_conductances") is not None and \
+                T.find(second, lambda x: x.op == "param" and x.name == "delta_t") is not None and \
+                T.find(lst.args[0], lambda x: x.op == "mcall" and x.name == "zeros") is not None
+    col.check(ok, R, fi, "all_values = [diagonals, -dt*g]", "off-diagonals are the negated scaled conductances, after the diagonals",
+              f"all_values is {av.short() if av else None}", node=fi.node)
+    # orientation: CSC arrays of M[source, sink] read by a CSR solver => effective row = sink = diagonal index
+    cfi = repo.func(SU, "comp_edges_to_indices")
+    exc = idxm.expander(repo, cfi)
+    call = next((c for c in exc.calls if isinstance(c.func, ast.Name) and c.func.id == "convert_to_csc"), None)
+    if call is None:
+        raise AnalysisError("comp_edges_to_indices no longer calls convert_to_csc")
+    ct = exc.term(call)
+    row, colk = ct.kw.get("row_ind"), ct.kw.get("col_ind")
+    if row is None and len(ct.args) >= 3:
+        row, colk = ct.args[1], ct.args[2]
+    def which(t):
+        """'source' / 'sink' column name reached by a term."""
+        c = [x.name for x in t.walk() if x.op == "const" and x.name in ("source", "sink")]
+        return c[0] if len(set(c)) == 1 else None
+
+    off = None
+    if row is not None:
+        for x in row.walk():
+            if x.op == "mcall" and x.name == "stack" and x.args[1].op == "list" and len(x.args[1].args) == 2:
+                if {which(x.args[1].args[0]), which(x.args[1].args[1])} == {"source", "sink"}:
+                    off = x
+
+    eff_row = None
+    if off is not None and row is not None and colk is not None:
+        first, second = which(off.args[1].args[0]), which(off.args[1].args[1])
+        r_i = row.args[1].name if row.op == "sub" and row.args[1].op == "const" else None
+        c_i = colk.args[1].name if colk.op == "sub" and colk.args[1].op == "const" else None
+        pair = {0: first, 1: second}
+        # convert_to_csc sorts by (col, row) and builds indptr over col; fed to a CSR solver the
+        # compressed axis (col_ind) acts as the row.
+        csc = repo.func(SU, "convert_to_csc")
+        compress = None
+        for n in ast.walk(csc.node):
+            if isinstance(n, ast.Call) and unparse(n.func) == "np.add.at" and len(n.args) >= 2:
+                compress = "col_ind" if "col_ind" in unparse(n.args[1]) else ("row_ind" if "row_ind" in unparse(n.args[1]) else None)
+        if compress == "col_ind":
+            eff_row = pair.get(c_i)
+        elif compress == "row_ind":
+            eff_row = pair.get(r_i)
+    dix = diag.updates[0][0] if diag.updates else None
+    col.check(eff_row is not None and dix == eff_row + "s", R, cfi,
+              "orientation: compressed axis of the (data, indices, indptr) arrays is the sink",
+              f"effective row = {eff_row}; diagonal accumulated at `{dix}`",
+              f"the sparse matrix is laid out with effective row = `{eff_row}` but the diagonal accumulates the "
+              f"conductances at `{dix}`: off-diagonal -dt*g(i<-j) would sit in the row of j", node=call)
+    di = exc.final_env.get("all_inds")
+    okc = di is not None and T.find(di, lambda x: x.op == "list" and len(x.args) == 2 and
+                                    T.find(x.args[0], lambda y: y.op == "mcall" and y.name == "arange") is not None) is not None
+    col.check(okc, R, cfi, "index order (diagonals, off-diagonals) matches all_values", "diagonal indices first",
+              "all_inds does not list the diagonal indices first", node=cfi.node)
+    # result read at the internal nodes
+    r = ex.returns[-1] if ex.returns else None
+    ok = r is not None and T.find(r, lambda x: x.op == "sub" and x.args[1].op == "param" and x.args[1].name == "internal_node_inds") is not None
+    col.check(ok, R, fi, "solution read back at internal_node_inds", "branch-point voltages are dropped",
+              f"returns {r.short() if r else None}", node=fi.node)
+
+
+def _explicit(repo, col):
+    R = "R-C01-scheme"
+    fi = repo.func(SV, "_voltage_vectorfield")
+    # the function builds `vecfield = -vt*v + ct` (elementwise) then two scatters
+    ex = idxm.expander(repo, fi)
+    r = ex.returns[-1]
+    base = r
+    ups = []
+    while base.op == "mcall" and base.name in ("add", "set") and base.args[0].op == "sub" and base.args[0].args[0].op == "attr" \
+            and base.args[0].args[0].name == "at":
+        ups.append((unparse(base.args[0].args[1].node), base.name, base.args[1]))
+        base = base.args[0].args[0].args[0]
+    ups = ups[::-1]
+    ev2 = _arr_eval(repo)
+    env = {p: v for p, v in zip(fi.params, _abstract_args(fi))}
+    ctx = {"mod": repo.mods[fi.file], "cls": None, "defining_cls": None}
+    try:
+        b = rat_of(ev2.ev(base.node, env, ctx)) if base.node is not None else None
+    except Und:
+        b = None
+    want = parse_ref(ev2, "-vt*v + ct", _ATOMS)
+    col.check(b is not None and b.eq(want), R, fi, "explicit vector field: membrane part",
+              "-voltage_terms*v + constant_terms", f"membrane part is {b}", node=fi.node)
+    desc = {(s, o) for s, o, _v in ups}
+    col.check(desc == {("(slice(None, None, None), slice(None, -1, None))", "add"), ("(slice(None, None, None), slice(1, None, None))", "add")}
+              or {x[1] for x in ups} == {"add"} and len(ups) == 2, R, fi,
+              "explicit vector field: two additive axial contributions", f"{[(s, o) for s, o, _ in ups]}",
+              f"axial contributions are {[(s, o) for s, o, _ in ups]}", node=fi.node)
+    for s, o, v in ups:
+        txt = v.pretty()
+        up = "uppers" if ":-1" in s.replace(" ", "") or "slice(None, -1" in s else "lowers"
+    # structural: (v[:,1:] - v[:,:-1]) * uppers at [:, :-1]; (v[:,:-1] - v[:,1:]) * lowers at [:, 1:]
+    srcs = [unparse(n) for n in ast.walk(fi.node) if isinstance(n, ast.Call) and isinstance(n.func, ast.Attribute) and n.func.attr == "add"]
+    want_src = {"vecfield.at[:, :-1].add((voltages[:, 1:] - voltages[:, :-1]) * uppers)",
+                "vecfield.at[:, 1:].add((voltages[:, :-1] - voltages[:, 1:]) * lowers)"}
+    ok = _axial_terms_ok(fi)
+    col.check(ok, R, fi, "explicit vector field: (v_neighbour - v_self) * g into the row of self",
+              "row i receives g_up*(v[i+1]-v[i]) and g_low*(v[i-1]-v[i])",
+              f"axial terms are {srcs}", node=fi.node)
+    # uppers/lowers selection: src>snk feeds uppers
+    sels = {}
+    for n in walk_no_nested(fi.node):
+        if isinstance(n, ast.Assign) and isinstance(n.targets[0], ast.Name) and n.targets[0].id in ("upper_inds", "lower_inds"):
+            sels[n.targets[0].id] = unparse(n.value)
+    ok = sels.get("upper_inds", "").replace(" ", "") == "sources[c2c]>sinks[c2c]" and \
+        sels.get("lower_inds", "").replace(" ", "") == "sources[c2c]<sinks[c2c]"
+    col.check(ok, R, fi, "explicit: source > sink feeds uppers, source < sink feeds lowers", str(sels),
+              f"selectors are {sels}", node=fi.node)
+    # step_voltage_explicit: v + dt*update
+    se = repo.func(SV, "step_voltage_explicit")
+    exs = idxm.expander(repo, se)
+    r = exs.returns[-1] if exs.returns else None
+    s = T.find(r, lambda x: x.op == "binop" and x.name == "+") if r else None
+    ok = False
+    if s is not None:
+        a, b_ = s.args
+        ok = T.find(a, lambda x: x.op == "param" and x.name == "voltages") is not None and b_.op == "binop" and b_.name == "*" and \
+            {y.name for y in b_.args if y.op == "param"} == {"delta_t"} and \
+            T.find(b_, lambda x: x.op == "call" and x.name == "_voltage_vectorfield") is not None
+    col.check(ok, R, se, "forward Euler: v + dt * f(v)", "voltages + delta_t * update",
+              f"returns {r.short() if r else None}", node=se.node)
+
+
+def _axial_terms_ok(fi) -> bool:
+    """vecfield.at[:, :-1].add((v[:, 1:] - v[:, :-1]) * uppers) and the mirrored lower term."""
+    found = {"upper": False, "lower": False}
+    for n in ast.walk(fi.node):
+        if isinstance(n, ast.Call) and isinstance(n.func, ast.Attribute) and n.func.attr == "add" and \
+                isinstance(n.func.value, ast.Subscript):
+            sl = unparse(n.func.value.slice).replace(" ", "").strip("()")
+            arg = n.args[0]
+            if not (isinstance(arg, ast.BinOp) and isinstance(arg.op, ast.Mult)):
+                continue
+            fac = [arg.left, arg.right]
+            diff = next((x for x in fac if isinstance(x, ast.BinOp) and isinstance(x.op, ast.Sub)), None)
+            g = next((x for x in fac if isinstance(x, ast.Name)), None)
+            if diff is None or g is None:
+                continue
+            l, r = unparse(diff.left).replace(" ", ""), unparse(diff.right).replace(" ", "")
+            if sl == ":,:-1" and l == "voltages[:,1:]" and r == "voltages[:,:-1]" and g.id == "uppers":
+                found["upper"] = True
+            if sl == ":,1:" and l == "voltages[:,:-1]" and r == "voltages[:,1:]" and g.id == "lowers":
+                found["lower"] = True
+    return all(found.values())
+
+
+# --------------------------------------------------------------------------------------
+
+
+ELIM = {
+    # name -> (index vars, oracle updates {array: (index, op, formula)})
+    "_eliminate_children_lower": {
+        "branchpoint_diags": ("cil.col1", "add", "-(wc/d)*kc"),
+        "branchpoint_solves": ("cil.col1", "add", "-(wc/d)*s"),
+        "branchpoint_weights_children": ("cil.col0", "set", "0"),
+        "_atoms": {"wc": "branchpoint_weights_children@cil.col0", "kc": "branchpoint_conds_children@cil.col0",
+                   "d": "diags@first(cil.col0)", "s": "solves@first(cil.col0)"},
+        "_why": "eliminate the child's weight in the branch-point row with the child's first row (d; kc | s)",
+    },
+    "_eliminate_parents_upper": {
+        "diags": ("last(pil.col0)", "add", "-(kp/D)*wp"),
+        "solves": ("last(pil.col0)", "add", "-(kp/D)*S"),
+        "branchpoint_conds_parents": ("pil.col0", "set", "0"),
+        "_atoms": {"kp": "branchpoint_conds_parents@pil.col0", "wp": "branchpoint_weights_parents@pil.col0",
+                   "D": "branchpoint_diags@pil.col1", "S": "branchpoint_solves@pil.col1"},
+        "_why": "eliminate the branch-point entry of the parent's last row with the branch-point row (D; wp | S)",
+    },
+    "_eliminate_parents_lower": {
+        "branchpoint_solves": ("pil.col1", "add", "-(wp/d)*s"),
+        "branchpoint_weights_parents": ("pil.col0", "set", "0"),
+        "_atoms": {"wp": "branchpoint_weights_parents@pil.col0", "d": "diags@last(pil.col0)", "s": "solves@last(pil.col0)"},
+        "_why": "substitute the solved parent voltage s/d into the branch-point row",
+    },
+    "_eliminate_children_upper": {
+        "solves": ("first(cil.col0)", "add", "-(kc/D)*S"),
+        "branchpoint_conds_children": ("cil.col0", "set", "0"),
+        "_atoms": {"kc": "branchpoint_conds_children@cil.col0", "D": "branchpoint_diags@cil.col1", "S": "branchpoint_solves@cil.col1"},
+        "_why": "substitute the solved branch-point voltage S/D into the child's first row",
+    },
+}
+
+
+def _elim(repo, col):
+    R = "R-C01-elim"
+    for fname, spec in ELIM.items():
+        fi = repo.func(SV, fname)
+        ev = _arr_eval(repo)
+        try:
+            res = ev.call(fi, _abstract_args(fi))
+        except Und as e:
+            col.unk(R, fi, fname, f"outside the analysable fragment: {e}", node=fi.node)
+            continue
+        if not isinstance(res, tuple):
+            col.unk(R, fi, fname, "does not return a tuple of arrays", node=fi.node)
+            continue
+        got = {}
+        for a in res:
+            if isinstance(a, ArrV):
+                got.setdefault(a.role, a)
+        env = {k: PW.of(Rat.atom(v)) for k, v in spec["_atoms"].items()}
+        for arr, triple in spec.items():
+            if arr.startswith("_"):
+                continue
+            wix, wop, wtxt = triple
+            a = got.get(arr)
+            if a is None:
+                col.bad(R, fi, f"{fname}: update of {arr}", f"`{arr}` is not returned/updated; needed to {spec['_why']}", node=fi.node)
+                continue
+            ups = [(ix, op, rat_of(v), n) for ix, op, v, n in a.updates]
+            wv = parse_ref(ev, wtxt, env)
+            ok = len(ups) == 1 and ups[0][0] == wix and ups[0][1] == wop and ups[0][2].eq(wv)
+            col.check(ok, R, fi, f"{fname}: update of {arr}",
+                      f"{wop} {wtxt} at {wix}: {spec['_why']}",
+                      f"`{arr}` is updated by {[(u[0], u[1], repr(u[2])) for u in ups]}; the Gaussian row operation "
+                      f"that would {spec['_why']} is `{wop} {wtxt}` at {wix} (with {spec['_atoms']})",
+                      node=ups[0][3] if ups else fi.node)
+        # no other array may be modified
+        for role, a in got.items():
+            if role not in spec and a.updates:
+                col.bad(R, fi, f"{fname}: unexpected update of {role}", f"{_fmt_table(a)}", node=a.updates[0][3])
+
+
+# --------------------------------------------------------------------------------------
+
+
+def _calls_in(body):
+    out = []
+    for st in body:
+        for n in ast.walk(st):
+            if isinstance(n, ast.Call) and isinstance(n.func, ast.Name):
+                out.append(n)
+                break
+    return out
+
+
+def _schedule(repo, col):
+    R = "R-C01-schedule"
+    for fname, want_rev, pre, loop_order, post in (
+        ("_triang_branched", True, [], ["_triang_level", "_eliminate_children_lower", "_eliminate_parents_upper"], ["_triang_level"]),
+        ("_backsub_branched", False, ["_backsub_level"], ["_eliminate_parents_lower", "_eliminate_children_upper", "_backsub_level"], []),
+    ):
+        fi = repo.func(SV, fname)
+        ex = idxm.expander(repo, fi)
+        loops = [st for st in fi.node.body if isinstance(st, ast.For)]
+        if len(loops) != 1:
+            col.unk(R, fi, fname, "expected exactly one loop over the levels", node=fi.node)
+            continue
+        lp = loops[0]
+        i = fi.node.body.index(lp)
+        it = ex.term(lp.iter)
+        # zip(children, parents) both reversed (or both not)
+        ok_zip = it.op == "call" and it.name == "zip" and len(it.args) == 2
+
+        def unwrap(t):
+            if t.op == "call" and t.name == "reversed":
+                return True, t.args[0]
+            if t.op == "sub" and t.args[1].op == "slice" and t.args[1].args[2].op == "unary":
+                return True, t.args[0]
+            return False, t
+
+        if not ok_zip:
+            col.unk(R, fi, f"{fname}: level loop", f"iterates {it.short()}", node=lp)
+            continue
+        (r0, a0), (r1, a1) = unwrap(it.args[0]), unwrap(it.args[1])
+        col.check(r0 == r1 == want_rev, R, fi, f"{fname}: levels visited {'deepest' if want_rev else 'shallowest'} first",
+                  "reversed(...) on both lists" if want_rev else "both lists in level order",
+                  f"{fname} must visit the levels {'from the leaves to the root' if want_rev else 'from the root to the leaves'}; "
+                  f"it iterates {it.short(120)}", node=lp)
+        names = (a0.name if a0.op == "attr" else None, a1.name if a1.op == "attr" else None)
+        tgt = [unparse(x) for x in lp.target.elts] if isinstance(lp.target, ast.Tuple) else []
+        col.check(names == ("children_in_level", "parents_in_level") and tgt == ["cil", "pil"], R, fi,
+                  f"{fname}: (cil, pil) bound to (children_in_level, parents_in_level)", f"{names} -> {tgt}",
+                  f"loop binds {tgt} to {names}", node=lp)
+        order = [c.func.id for c in _calls_in(lp.body) if c.func.id.startswith(("_triang", "_backsub", "_eliminate"))]
+        col.check(order == loop_order, R, fi, f"{fname}: per-level order", " -> ".join(loop_order),
+                  f"per-level order is {' -> '.join(order)}, required {' -> '.join(loop_order)}", node=lp)
+        pre_calls = [c.func.id for c in _calls_in(fi.node.body[:i]) if c.func.id.startswith(("_triang", "_backsub", "_eliminate"))]
+        post_calls = [c.func.id for c in _calls_in(fi.node.body[i + 1:]) if c.func.id.startswith(("_triang", "_backsub", "_eliminate"))]
+        col.check(pre_calls == pre and post_calls == post, R, fi, f"{fname}: roots handled {'last' if want_rev else 'first'}",
+                  f"before loop {pre}, after loop {post}", f"before the loop: {pre_calls}, after: {post_calls}; required {pre} / {post}",
+                  node=fi.node)
+        # level calls use the branch column of cil; root call uses idx.root_inds
+        for c in [n for n in ast.walk(fi.node) if isinstance(n, ast.Call) and isinstance(n.func, ast.Name)
+                  and n.func.id in ("_triang_level", "_backsub_level")]:
+            a = unparse(c.args[0])
+            inloop = any(c is x for x in ast.walk(lp))
+            col.check(a == ("cil[:, 0]" if inloop else "idx.root_inds"), R, fi, f"{fname}: {c.func.id}({a}, ...)",
+                      "children's branches inside the loop, roots outside",
+                      f"{c.func.id} is applied to `{a}` {'inside' if inloop else 'outside'} the level loop", node=c)
+        # each elimination receives the list of its own kind
+        for c in [n for n in ast.walk(lp) if isinstance(n, ast.Call) and isinstance(n.func, ast.Name) and n.func.id.startswith("_eliminate")]:
+            want_arg = "cil" if "children" in c.func.id else "pil"
+            col.check(unparse(c.args[0]) == want_arg, R, fi, f"{fname}: {c.func.id} receives {want_arg}", want_arg,
+                      f"{c.func.id} receives `{unparse(c.args[0])}`", node=c)
+            cf = repo.func(SV, c.func.id)
+            argn = [unparse(x) for x in c.args]
+            swapped = [(p, a_) for p, a_ in zip(cf.params[1:], argn[1:]) if a_ != p and a_ in cf.params]
+            col.check(not swapped, R, fi, f"{fname}: {c.func.id} arguments in their roles", "names match",
+                      f"{c.func.id} receives {swapped} (an argument bound to another parameter's role)", node=c)
+        # results are threaded: the tuple assigned from each call is named like the callee's return
+        for st in lp.body + fi.node.body[:i] + fi.node.body[i + 1:]:
+            if isinstance(st, ast.Assign) and isinstance(st.value, ast.Call) and isinstance(st.value.func, ast.Name):
+                cf = repo.mods[SV].functions.get(st.value.func.id)
+                if cf is None:
+                    continue
+                rets = [n for n in walk_no_nested(cf.node) if isinstance(n, ast.Return)]
+                if not rets or not isinstance(rets[-1].value, ast.Tuple):
+                    continue
+                rn = [unparse(x) for x in rets[-1].value.elts]
+                tn = [unparse(x) for x in (st.targets[0].elts if isinstance(st.targets[0], ast.Tuple) else [st.targets[0]])]
+                col.check(rn == tn, R, fi, f"{fname}: results of {cf.name} bound in order", f"{tn}",
+                          f"{cf.name} returns {rn} but the caller binds them to {tn}", node=st)
+    # triangulation / back-substitution kernels on the level
+    for fname, kernels in (("_triang_level", {"jaxley.stone": "stone_triang_upper", "jaxley.thomas": "thomas_triang_upper"}),
+                           ("_backsub_level", {"jaxley.stone": "stone_backsub_lower", "jaxley.thomas": "thomas_backsub_lower"})):
+        fi = repo.func(SV, fname)
+        got = {}
+        node = fi.node
+        for n in walk_no_nested(fi.node):
+            if isinstance(n, ast.If):
+                t = n.test
+                if isinstance(t, ast.Compare) and isinstance(t.comparators[0], ast.Constant):
+                    for b in n.body:
+                        if isinstance(b, ast.Assign):
+                            got[t.comparators[0].value] = unparse(b.value)
+        col.check(got == kernels, R, fi, f"{fname}: kernel per solver name", str(got), f"kernels are {got}, expected {kernels}", node=node)
+        _level_io(repo, col, fi)
+
+
+def _level_io(repo, col, fi):
+    """Gathers / scatters of one level use branch/lower/upper consistently."""
+    R = "R-C01-schedule"
+    ev = _arr_eval(repo)
+    args = _abstract_args(fi)
+    calls = {}
+    gathers = []
+    for n in ast.walk(fi.node):
+        if isinstance(n, ast.Subscript) and isinstance(n.value, ast.Name) and isinstance(n.slice, ast.Call) and \
+                isinstance(n.slice.func, ast.Attribute) and isinstance(n.slice.func.value, ast.Name) and n.slice.func.value.id == "idx":
+            gathers.append((n.value.id, n.slice.func.attr, unparse(n.slice.args[0])))
+    want = {"lowers": "lower", "uppers": "upper", "diags": "branch", "solves": "branch"}
+    bad = [(a, m) for a, m, _x in gathers if want.get(a) != m]
+    col.check(not bad and gathers, R, fi, f"{fi.name}: arrays gathered with their own accessor",
+              f"{sorted(set((a, m) for a, m, _ in gathers))}",
+              f"{fi.name} gathers {bad}; required lowers->lower, uppers->upper, diags/solves->branch", node=fi.node)
+    sc = []
+    for n in ast.walk(fi.node):
+        if isinstance(n, ast.Call) and isinstance(n.func, ast.Attribute) and n.func.attr == "set" and \
+                isinstance(n.func.value, ast.Subscript) and isinstance(n.func.value.value, ast.Attribute):
+            arr = unparse(n.func.value.value.value)
+            sl = n.func.value.slice
+            if isinstance(sl, ast.Call) and isinstance(sl.func, ast.Attribute):
+                sc.append((arr, sl.func.attr))
+    bad = [(a, m) for a, m in sc if want.get(a) != m]
+    col.check(not bad and sc, R, fi, f"{fi.name}: results scattered with the accessor they were gathered with",
+              f"{sorted(set(sc))}", f"{fi.name} scatters {bad}", node=fi.node)
+
+
+# --------------------------------------------------------------------------------------
+
+
+def _ends(repo, col):
+    R = "R-C01-ends"
+    fi = repo.method("Cell", "_init_morph_jax_spsolve")
+    ev = kin.new_eval(repo)
+    obj = ObjV("Cell", {"cumsum_ncomp": SymArr("Cu", step="n"), "_par_inds": PW.of(Rat.atom("b")),
+                        "_child_inds": PW.of(Rat.atom("b"))})
+    ctx = {"mod": repo.mods[fi.file], "cls": "Cell", "defining_cls": "Cell"}
+    found = {}
+    for n in ast.walk(fi.node):
+        if isinstance(n, ast.Dict):
+            keys = [k.value if isinstance(k, ast.Constant) else None for k in n.keys]
+            if "sink" in keys and "type" in keys:
+                tv = n.values[keys.index("type")]
+                sv = n.values[keys.index("sink")]
+                if isinstance(tv, ast.Constant) and tv.value in (1, 2):
+                    try:
+                        val = rat_of(ev.ev(sv, {"self": obj}, ctx))
+                    except Und as e:
+                        col.unk(R, fi, f"type-{tv.value} sink", f"outside the analysable fragment: {e}", node=sv)
+                        continue
+                    found[tv.value] = (val, sv)
+    if set(found) != {1, 2}:
+        raise AnalysisError("Cell._init_morph_jax_spsolve: branch-point edge blocks (types 1, 2) not found")
+    Cu, n_ = Rat.atom("Cu[b]"), Rat.atom("n[b]")
+    v1, n1 = found[1]
+    col.check(v1.eq(Cu + n_ - ONE), R, fi, "type-1 edge: branch point -> last compartment of the parent",
+              "sink = cumsum_ncomp[parent + 1] - 1", f"type-1 sink is {v1}: not the last compartment Cu[b] + n[b] - 1 of the parent", node=n1)
+    v2, n2 = found[2]
+    col.check(v2.eq(Cu), R, fi, "type-2 edge: branch point -> first compartment of the child",
+              "sink = cumsum_ncomp[child]", f"type-2 sink is {v2}: not the first compartment Cu[b] of the child", node=n2)
+    # types 3/4 are the transposes of 1/2
+    src = unparse(fi.node)
+    ok3 = "parent_to_branchpoint_edges = branchpoint_to_parent_edges.rename(columns={'sink': 'source', 'source': 'sink'})" in src
+    ok4 = "child_to_branchpoint_edges = branchpoint_to_child_edges.rename(columns={'sink': 'source', 'source': 'sink'})" in src
+    t3 = "parent_to_branchpoint_edges['type'] = 3" in src and "child_to_branchpoint_edges['type'] = 4" in src
+    col.check(ok3 and ok4 and t3, R, fi, "types 3/4 are the reversed type-1/2 edges", "rename sink<->source, type 3 / 4",
+              "the compartment-to-branchpoint edges are not the reversed branchpoint-to-compartment edges", node=fi.node)
+    # branch-point node index: parents -> arange + offset, children -> child_belongs_to_branchpoint + offset
+    srcs = {}
+    for n in ast.walk(fi.node):
+        if isinstance(n, ast.Dict):
+            keys = [k.value if isinstance(k, ast.Constant) else None for k in n.keys]
+            if "source" in keys and "type" in keys:
+                tv = n.values[keys.index("type")]
+                if isinstance(tv, ast.Constant) and tv.value in (1, 2):
+                    srcs[tv.value] = unparse(n.values[keys.index("source")])
+    ok = "np.arange(len(self._par_inds)) + self.cumsum_ncomp[-1]" == srcs.get(1) and \
+        "self._child_belongs_to_branchpoint + self.cumsum_ncomp[-1]" == srcs.get(2)
+    col.check(ok, R, fi, "branch-point node ids: k-th unique parent <-> branch point k, children by their parent's rank",
+              str(srcs), f"branch-point sources are {srcs}", node=fi.node)
+    # columns of children_in_level / parents_in_level: (branch, branch point)
+    mfi = repo.func("jaxley/utils/cell_utils.py", "compute_morphology_indices_in_levels")
+    exm = idxm.expander(repo, mfi)
+    r = exm.returns[0] if exm.returns else None
+    ok = False
+    if r is not None and r.op == "dict":
+        d = {kv.args[0].name: kv.args[1] for kv in r.args if kv.args[0].op == "const"}
+        def cols(t):
+            st = T.find(t, lambda x: x.op == "mcall" and x.name == "stack")
+            if st is None or st.args[1].op != "list":
+                return None
+            return [a.pretty() for a in st.args[1].args]
+        ok = cols(d.get("children")) == ["child_inds", "child_belongs_to_branchpoint"] and \
+            cols(d.get("parents")) == ["par_inds", "jnp.arange(num_branchpoints)"] and \
+            d["children"].op == "attr" and d["children"].name == "T"
+    col.check(ok, R, mfi, "level tables have columns (branch, branch point)", "children: (child_inds, bp of parent); parents: (par_inds, arange)",
+              f"returns {r.short(200) if r else None}", node=mfi.node)
+
+
+# --------------------------------------------------------------------------------------
+
+
+def _scheme(repo, col):
+    R = "R-C01-scheme"
+    fi = repo.method("Module", "step")
+    ex = idxm.expander(repo, fi)
+    fn = fi.node
+    d = None
+    for n in walk_no_nested(fn):
+        if isinstance(n, ast.Assign) and isinstance(n.value, ast.Dict) and isinstance(n.targets[0], ast.Name) and \
+                n.targets[0].id == "solver_kwargs":
+            d = n.value
+    if d is None:
+        raise AnalysisError("Module.step: solver_kwargs not found")
+    kw = {k.value: ex.term(v) for k, v in zip(d.keys, d.values) if isinstance(k, ast.Constant)}
+
+    def is_param_sub(t, dname, key):
+        return t.op == "sub" and t.args[0].op == "param" and t.args[0].name == dname and t.args[1].op == "const" and t.args[1].name == key
+
+    col.check("voltages" in kw and is_param_sub(kw["voltages"], "u", "v"), R, fi, "voltages = u['v'] before the step",
+              "old voltages", f"voltages is {kw.get('voltages').short() if 'voltages' in kw else None}", node=d)
+    # voltage_terms = (v_terms + syn_v_terms) / cm ; constant_terms = (const + i_ext + syn_const) / cm
+    def summands(t):
+        if t.op == "binop" and t.name == "+":
+            return summands(t.args[0]) + summands(t.args[1])
+        return [t]
+
+    def src(t):
+        """classify a summand: ('chan', k) / ('syn', k) / 'i_ext'"""
+        c = T.find(t, lambda x: x.op == "mcall" and x.name in ("_step_channels", "_step_synapse"))
+        if t.op == "item" and t.args[0].op == "item" and c is not None:
+            return ("chan" if c.name == "_step_channels" else "syn", t.args[0].name, t.name)
+        if T.find(t, lambda x: x.op == "mcall" and x.name == "_get_external_input") is not None:
+            return "i_ext"
+        return None
+
+    for key, want in (("voltage_terms", {("chan", 1, 0), ("syn", 1, 0)}), ("constant_terms", {("chan", 1, 1), ("syn", 1, 1), "i_ext"})):
+        t = kw.get(key)
+        ok = t is not None and t.op == "binop" and t.name == "/" and is_param_sub(t.args[1], "params", "capacitance")
+        got = {src(s) for s in summands(t.args[0])} if ok else set()
+        col.check(ok and got == want, R, fi, f"{key} = (channel + synapse{' + stimulus' if 'i_ext' in want else ''} terms) / capacitance",
+                  f"{sorted(map(str, got))}",
+                  f"{key} is {t.short(160) if t is not None else None}: required summands {sorted(map(str, want))} divided by params['capacitance']",
+                  node=d)
+    col.check("axial_conductances" in kw and is_param_sub(kw["axial_conductances"], "params", "axial_conductances"), R, fi,
+              "axial_conductances = params['axial_conductances']", "", "axial conductances are not taken from params", node=d)
+    # solver-specific kwargs and binding through **
+    updates = [s for s in ex.stores if s.kind == "mcall" and s.key.name == "update" and unparse(s.node.func.value) == "solver_kwargs"]
+    if len(updates) != 2:
+        raise AnalysisError("Module.step: the two solver_kwargs.update(...) calls were not found")
+    base_keys = set(kw)
+    for s in updates:
+        dn = s.node.args[0]
+        keys = {k.value for k in dn.keys if isinstance(k, ast.Constant)}
+        is_sparse = any(key_is_sparse(g) for g in s.guards)
+        target = "step_voltage_implicit_with_jax_spsolve" if is_sparse else "step_voltage_implicit_with_jaxley_spsolve"
+        tf = repo.func(SV, target)
+        need = set(tf.params)
+        have = base_keys | keys | {"delta_t"}
+        col.check(have == need, R, fi, f"solver_kwargs binds exactly the parameters of {target}",
+                  f"{sorted(have)}", f"keys {sorted(have)} vs parameters {sorted(need)}: missing {sorted(need - have)}, "
+                                     f"unexpected {sorted(have - need)}", node=dn)
+        # comp-edge columns go to the parameter of the same meaning
+        colmap = {"sinks": "sink", "sources": "source", "types": "type"}
+        for k, v in zip(dn.keys, dn.values):
+            if isinstance(k, ast.Constant) and k.value in colmap:
+                txt = unparse(v)
+                col.check(f"self._comp_edges['{colmap[k.value]}']" in txt, R, fi, f"{k.value} <- _comp_edges['{colmap[k.value]}'] ({target.split('_')[-2]})",
+                          txt, f"`{k.value}` is filled from {txt}", node=v)
+        # which implicit stepper is selected
+        sel = [n for n in ast.walk(fn) if isinstance(n, ast.Assign) and unparse(n.targets[0]) == "step_voltage_implicit"]
+    sels = {}
+    for n in ast.walk(fn):
+        if isinstance(n, ast.If) and key_is_sparse_ast(n.test):
+            for b in n.body:
+                if isinstance(b, ast.Assign) and unparse(b.targets[0]) == "step_voltage_implicit":
+                    sels["jax.sparse"] = unparse(b.value)
+            for b in n.orelse:
+                if isinstance(b, ast.Assign) and unparse(b.targets[0]) == "step_voltage_implicit":
+                    sels["other"] = unparse(b.value)
+    col.check(sels == {"jax.sparse": "step_voltage_implicit_with_jax_spsolve", "other": "step_voltage_implicit_with_jaxley_spsolve"},
+              R, fi, "implicit stepper per voltage_solver", str(sels), f"steppers are {sels}", node=fn)
+    # the three schemes
+    chain = None
+    for n in walk_no_nested(fn):
+        if isinstance(n, ast.If) and isinstance(n.test, ast.Compare) and unparse(n.test.left) == "solver":
+            chain = n
+            break
+    if chain is None:
+        raise AnalysisError("Module.step: solver if-chain not found")
+    branches = {}
+    node = chain
+    while True:
+        name = node.test.comparators[0].value if isinstance(node.test.comparators[0], ast.Constant) else None
+        branches[name] = node.body
+        if len(node.orelse) == 1 and isinstance(node.orelse[0], ast.If) and isinstance(node.orelse[0].test, ast.Compare):
+            node = node.orelse[0]
+            continue
+        break
+    col.check(set(branches) == {"bwd_euler", "crank_nicolson", "fwd_euler"}, R, fi, "the three schemes are dispatched by name",
+              str(sorted(map(str, branches))), f"dispatch covers {sorted(map(str, branches))}", node=chain)
+
+    def assign_v(body):
+        for st in body:
+            if isinstance(st, ast.Assign) and unparse(st.targets[0]) == "u['v']":
+                return st
+        return None
+
+    def call_dt(c):
+        """(callee, delta_t keyword text, uses **solver_kwargs)"""
+        if not isinstance(c, ast.Call):
+            return None
+        dt = next((unparse(k.value) for k in c.keywords if k.arg == "delta_t"), None)
+        star = any(k.arg is None and unparse(k.value) == "solver_kwargs" for k in c.keywords)
+        return unparse(c.func), dt, star
+
+    if "bwd_euler" in branches:
+        a = assign_v(branches["bwd_euler"])
+        ok = a is not None and call_dt(a.value) == ("step_voltage_implicit", "delta_t", True)
+        col.check(ok, R, fi, "bwd_euler: v' = implicit(dt)", "step_voltage_implicit(**solver_kwargs, delta_t=delta_t)",
+                  f"bwd_euler assigns {unparse(a.value) if a else None}", node=a or chain)
+    if "fwd_euler" in branches:
+        a = assign_v(branches["fwd_euler"])
+        ok = a is not None and call_dt(a.value) == ("step_voltage_explicit", "delta_t", True)
+        col.check(ok, R, fi, "fwd_euler: v' = explicit(dt)", "step_voltage_explicit(**solver_kwargs, delta_t=delta_t)",
+                  f"fwd_euler assigns {unparse(a.value) if a else None}", node=a or chain)
+    if "crank_nicolson" in branches:
+        body = branches["crank_nicolson"]
+        a = assign_v(body)
+        exb = ex
+        ok = False
+        detail = ""
+        if a is not None:
+            t = ex.term(a.value)
+            detail = t.short(200)
+            # 2*h - v  with h = implicit(dt/2), v = old voltages
+            ev = kin.new_eval(repo)
+            h = T.find(t, lambda x: x.op == "callv")
+            if h is not None and t.op == "binop":
+                dtk = h.kw.get("delta_t")
+                half = dtk is not None and dtk.op == "binop" and dtk.name == "/" and dtk.args[0].op == "param" and \
+                    dtk.args[0].name == "delta_t" and dtk.args[1].op == "const" and dtk.args[1].name == 2
+                half = half or (dtk is not None and dtk.op == "binop" and dtk.name == "*" and
+                                {str(x.name) for x in dtk.args} == {"delta_t", "0.5"})
+                # algebraic form of the combination
+                form = _linform(t, h)
+                ok = half and form == {"h": Fr(2), "v": Fr(-1)}
+                detail += f" ; combination {form}, half step {half}"
+        col.check(ok, R, fi, "crank_nicolson: v' = 2*implicit(dt/2) - v", "half implicit step, then the explicit half by reflection",
+                  f"crank_nicolson assigns {detail}", node=a or chain)
+    # unknown solver raises
+    last = node
+    col.check(any(isinstance(x, ast.Raise) for x in last.orelse), R, fi, "unknown solver raises", "ValueError",
+              "an unknown solver name does not raise", node=last)
+
+
+def _linform(t: T, h: T):
+    """Coefficients of t as a linear combination of h (the half step) and u['v'] (old voltages)."""
+    def lin(x):
+        if x is h or x.key() == h.key():
+            return {"h": Fr(1)}
+        if x.op == "sub" and x.args[0].op == "param" and x.args[0].name == "u" and x.args[1].op == "const" and x.args[1].name == "v":
+            return {"v": Fr(1)}
+        if x.op == "const" and isinstance(x.name, (int, float)):
+            return {"1": Fr(repr(x.name))}
+        if x.op == "binop" and x.name in ("+", "-"):
+            a, b = lin(x.args[0]), lin(x.args[1])
+            if a is None or b is None:
+                return None
+            out = dict(a)
+            for k, v in b.items():
+                out[k] = out.get(k, 0) + (v if x.name == "+" else -v)
+            return out
+        if x.op == "binop" and x.name == "*":
+            a, b = lin(x.args[0]), lin(x.args[1])
+            if a is None or b is None:
+                return None
+            if set(a) == {"1"}:
+                return {k: v * a["1"] for k, v in b.items()}
+            if set(b) == {"1"}:
+                return {k: v * b["1"] for k, v in a.items()}
+            return None
+        if x.op == "unary" and x.name == "USub":
+            a = lin(x.args[0])
+            return None if a is None else {k: -v for k, v in a.items()}
+        return None
+
+    f = lin(t)
+    return None if f is None else {k: v for k, v in f.items() if v != 0}
+
+
+def key_is_sparse(g: T) -> bool:
+    return g.op == "cmp" and g.name == "==" and any(a.op == "const" and a.name == "jax.sparse" for a in g.args)
+
+
+def key_is_sparse_ast(t) -> bool:
+    return isinstance(t, ast.Compare) and isinstance(t.ops[0], ast.Eq) and "jax.sparse" in unparse(t)
+
+
+# --------------------------------------------------------------------------------------
+
+
+def _refuse(repo, col):
+    R = "R-C01-refuse"
+    fi = repo.func(SV, "_voltage_vectorfield")
+    first = None
+    for st in fi.node.body:
+        if isinstance(st, ast.Expr) and isinstance(st.value, ast.Constant):
+            continue
+        first = st
+        break
+    ok = isinstance(first, ast.If) and any(isinstance(x, ast.Raise) for x in first.body)
+    types = None
+    if ok:
+        for n in ast.walk(first.test):
+            if isinstance(n, ast.Call) and unparse(n.func).endswith("isin") and isinstance(n.args[1], (ast.List, ast.Tuple)):
+                types = sorted(x.value for x in n.args[1].elts if isinstance(x, ast.Constant))
+    col.check(ok and types == [1, 2, 3, 4], R, fi, "forward Euler refuses branched morphologies before computing",
+              "raise if any edge of type 1..4 is present (only type-0 edges are accumulated)",
+              f"the refusal guard is {'missing' if not ok else 'restricted to types ' + str(types)}: edges of types 1-4 would "
+              f"be silently ignored by the explicit vector field", node=first or fi.node)
+    for fname in ("_triang_level", "_backsub_level"):
+        f2 = repo.func(SV, fname)
+        chain = next((n for n in walk_no_nested(f2.node) if isinstance(n, ast.If)), None)
+        node = chain
+        raises = False
+        while node is not None:
+            if len(node.orelse) == 1 and isinstance(node.orelse[0], ast.If):
+                node = node.orelse[0]
+                continue
+            raises = any(isinstance(x, ast.Raise) for x in node.orelse)
+            break
+        col.check(raises, R, f2, f"{fname}: unknown tridiagonal solver name raises", "raise NameError",
+                  f"{fname} does not refuse an unknown solver name", node=chain or f2.node)
